@@ -1,12 +1,12 @@
 SPECIFICATION Spec
 CONSTANTS
   Atomic = TRUE
-  SkipTruth = FALSE
+  SkipTruth = TRUE
   MaxRuns = 2
   BySpelling = FALSE
-  Twin = FALSE
-  Rich = TRUE
-  SkipKind = FALSE
+  Twin = TRUE
+  Rich = FALSE
+  SkipKind = TRUE
 INVARIANT Agreement
 INVARIANT TruthUntouched
 INVARIANT ReportTruthful
